@@ -80,6 +80,53 @@ def toml_ok_stream(docs):
     return all(isinstance(d, dict) for d in docs)
 
 
+def framing_pass(ctx, streams, dist):
+    """the tie of Model/Stream.v (join_docs / split_docs, which the C05 theorems are about) to yaml.go / toml.go: for each stream
+    and each of yaml, toml - bkl's MarshalStream (public Format API) must equal the model's join of the per-document texts
+    produced by the codec libraries called directly, and the model's split of that stream must give back exactly those texts,
+    as many documents as bkl itself reads back"""
+    cases, meta = [], []
+    for si, docs in enumerate(streams):
+        for f in ("yaml", "toml"):
+            if f == "toml" and not all(gen.toml_ok(d) for d in docs):
+                continue
+            cases.append(["frame", f, docs])
+            meta.append((si, f))
+    res = ctx.impl(cases)
+    joins, splits, keep = [], [], []
+    for (si, f), r in zip(meta, res):
+        if not (isinstance(r, list) and r and r[0] == "ok"):
+            continue
+        info = r[1]
+        parts = [p.split("\n")[:-1] if p.endswith("\n") else (p.split("\n") if p else []) for p in info["parts"]]
+        if any(("\r" in l) for p in parts for l in p):
+            continue
+        joins.append(["framejoin", parts])
+        splits.append(["framesplit", f == "toml", info["stream"].split("\n")[:-1] if info["stream"].endswith("\n") else (info["stream"].split("\n") if info["stream"] else [])])
+        keep.append((si, f, info, parts))
+    mj = ctx.model(joins) if joins else []
+    ms = ctx.model(splits) if splits else []
+    n = 0
+    for (si, f, info, parts), j, sp in zip(keep, mj, ms):
+        n += 1
+        why = None
+        want_stream = "".join(l + "\n" for l in j)
+        # a separator line inside a document's own text is the premise of the theorem failing (strings are escaped by the codecs)
+        clean = all(l not in ("---",) + (("+++",) if f == "toml" else ()) for p in parts for l in p)
+        if want_stream != info["stream"]:
+            why = "bkl's %s MarshalStream writes %r, the model's join of the per-document texts is %r" % (f, info["stream"][:300], want_stream[:300])
+        elif clean and sp != parts and not (parts == [[]] and sp == [[]]):
+            why = "the model splits bkl's %s stream into %r, the documents' texts are %r" % (f, sp[:4], parts[:4])
+        elif clean and isinstance(info["read"], list) and info["read"][0] == "ok" and len(info["read"][1]) != len(sp):
+            why = "bkl reads %d documents back from its own %s stream, the model's split has %d" % (len(info["read"][1]), f, len(sp))
+        if why and len([v for v in ctx.violations if v.get("class") == "c05-framing"]) < 2:
+            ctx.violations.append({"name": "frame-%s-%d" % (f, si), "property": "C05", "kind": "no-failing-input-found",
+                                   "theorem": "C05_split_join / C05_stream_roundtrip (Properties/C05.v) are about Model.Stream.join_docs/split_docs; their correspondence with yaml.go/toml.go framing broke",
+                                   "why": why, "stream": core.to_jsonable(streams[si]), "format": f, "class": "c05-framing"})
+    dist["framing_compared_with_model"] = n
+    return n
+
+
 def run(ctx):
     n = ctx.n(150, 4000)
     rng = core.Rng(ctx.seed)
@@ -205,7 +252,8 @@ def run(ctx):
         if si in problems and len(ctx.violations) < 5:
             ctx.violations.append({"name": "case-" + h, "property": "C05", "kind": "failing-input", "why": problems[si], "stream": core.to_jsonable(s),
                                    "class": "c05-roundtrip"})
-    return {"evaluations": dist["lib_outputs"] + dist["cli_runs"], "distinct_nontrivial": nt, "rule": RULE,
+    nframe = framing_pass(ctx, streams, dist)
+    return {"evaluations": dist["lib_outputs"] + dist["cli_runs"] + nframe, "distinct_nontrivial": nt, "rule": RULE,
             "samples": [core.to_jsonable(s) for s in streams[:2]], "distribution": dist, "disagreements_checked": len(ctx.violations)}
 
 
